@@ -80,7 +80,7 @@ def gen_sysworld(rng, small=False, blank_names=False):
             offset = {"a": 0.0, "b": 16.0, "c": 32.0, "e": 48.0, "t": 64.0, "R": 80.0, "1": 96.0, "_": 112.0}[letter]  # pairwise disjoint item sets across dimensions
             items = [x + offset for x in [[0.5, 1.0, 2.0], [0.25, 3.0, 7.5], [10.0, 0.125, 4.0]][(ord(letter) + n) % 3][:n]]
         if kind == "str":
-            flavour = rng.weighted([("plain", 5), ("numeric_looking", 3), ("awkward", 1), ("name_like", 1)])
+            flavour = rng.weighted([("plain", 5), ("numeric_looking", 3), ("awkward", 1), ("name_like", 1), ("marked", 1)])
             if flavour == "numeric_looking":
                 # a str-typed dimension whose file holds number-like cells next to text
                 items = items[:1] + [str({"a": 1000, "b": 2000, "c": 3000, "e": 5000, "t": 7000, "R": 8000, "1": 9000, "_": 11000}[letter] + 50 * j)
@@ -90,13 +90,17 @@ def gen_sysworld(rng, small=False, blank_names=False):
             elif flavour == "awkward":
                 # tokens that pandas' CSV type / NA inference rewrites unless told not to
                 items = rng.sample(["NA", "01", "1e3", "nan", "None", "true", "N/A", "007"], n)
+            elif flavour == "marked":
+                # labels as they stand in real files: decomposed accents and the Angstrom / Ohm signs (not NFC-normal), a '#', a comma or a
+                # semicolon inside a label, quotes.  They are the dimension's items exactly as written
+                items = rng.sample(["Cafe\u0301 blend", "\u212bngstro\u0308m", "50 \u2126 grade", "no #1 grade", "steel, cold-rolled", 'the "good" one', "a;b"], n)
             elif flavour == "name_like":
                 # an item that is the dimension's own name up to case or padding (dimension 'Waste', item 'waste'), mostly heading the file:
                 # only a first cell that *equals* the name is a header
                 nm = DIMNAMES[letter]
                 items[0 if rng.chance(0.7) else rng.randint(0, n - 1)] = rng.choice([nm.lower(), nm.upper(), " " + nm, nm + " "])
         dims.append({"letter": letter, "name": DIMNAMES[letter], "items": items, "dtype": kind})
-        if kind == "str" and flavour in ("awkward", "name_like"):
+        if kind == "str" and flavour in ("awkward", "name_like", "marked"):
             dims[-1]["awkward"] = True
     letters = [d["letter"] for d in dims]
     # ---- processes
